@@ -11,7 +11,7 @@ from . import sched_env as E
 LEAN_TARGETS = ['DawgieVerif.Model.FarmIO']
 
 MANIFEST = dict(
-    text='Lean theorems over Model/Farm.lean (Hand._reg, connectionLost, status poll, notify/notify_all, the assignment loop of dispatch, clear) for every valid history of registrations with matching or stale revision, disconnects, status polls, dispatch ticks, revision changes and activity changes: only_eligible (a task message goes only to a connection that was idle-listed, is connected, holds no task and registered with the current revision, and only while active), one_task_per_worker, inactive_only_abort (while not active every step writes nothing but abort; a dispatch tick writes nothing), unplaced_stay (handed-out messages ++ queue is a permutation of old queue ++ newly queued), message_fields and fresh_id_drawn_iff (job, target, run id 0 for regressions, the event run id or a fresh one drawn exactly when none) over the scheduler model. Invariant FInv by induction over op lists. Tied by op-by-op correspondence with the real farm on fake transports (bytes written are decoded with the real message.loads); the monitor checks every written message against the registration/connection/holding state it tracks itself, and farm.crew() against the units handed out and not answered.',
+    text='Lean theorems over Model/Farm.lean (Hand._reg, connectionLost, status poll, notify/notify_all, the assignment loop of dispatch, clear) for every valid history of registrations with matching or stale revision, disconnects, status polls, dispatch ticks, revision changes and activity changes: only_eligible (a task message goes only to a connection that was idle-listed, is connected, holds no task and registered with the current revision, and only while active), archive_tick_aborts (the tick in which dispatch itself fires the archive tells every idle worker to leave), one_task_per_worker, inactive_only_abort (while not active every step writes nothing but abort; a dispatch tick writes nothing), unplaced_stay (handed-out messages ++ queue is a permutation of old queue ++ newly queued), message_fields and fresh_id_drawn_iff (job, target, run id 0 for regressions, the event run id or a fresh one drawn exactly when none) over the scheduler model. Invariant FInv by induction over op lists. Tied by op-by-op correspondence with the real farm on fake transports (bytes written are decoded with the real message.loads); the monitor checks every written message against the registration/connection/holding state it tracks itself, and farm.crew() against the units handed out and not answered.',
     note='Assumed (ValidRun, exercised as a separate malformed stream): one register per connection; the life-cycle changes git_rev only while inactive and becomes active again only after farm.clear() (established by C10 for update -> ... -> load). _workers_sort (round robin over hosts) is the identity for one host, which is what the harness uses; insights is empty so _cluster_sort is the stable sort by run id. AWS/cloud placement (_agency) is not modelled. That db.next() exceeds every stored run id is C08. Trusted: Lean kernel, harness fakes.',
     technique='Lean 4 proof: invariant by induction over farm operation histories + differential correspondence',
     design='7/C11',
@@ -54,6 +54,8 @@ class World:
         self.rev_num = {'rev0': 0}
         self.next_id = 1
         self.fresh = []        # fresh run ids drawn, in order
+        self.event_rid = {}    # tag -> run id carried by the last request for it (None = none)
+        self.seen_rids = set()
         self.tnum = {ALL: 0}
         for i, t in enumerate(env.targets):
             self.tnum[t] = i + 1
@@ -110,7 +112,7 @@ class World:
                     workers.append(w)
         cluster = [[m.jobid, m.target if m.target else ALL, m.runid] for m in F._cluster]
         self.impl_obs.append({'workers': workers, 'cluster': cluster, 'busy': list(F._busy),
-                              'written': new_written})
+                              'written': new_written, 'active': self.env.fsm.active})
 
     def monitor_written(self, new_written, active_before, workers_before, rev_before):
         for w, m in new_written:
@@ -152,7 +154,7 @@ class World:
         if kind == 'reg':
             w, h = self.new_hand()
             rev = rev_before if op[1] else 'stale-' + rev_before
-            self.send(h, typ=env.M.Type.register, inc=1, rev=rev)
+            self.send(h, typ=env.M.Type.register, inc=op[2] if len(op) > 2 else 1, rev=rev)
             if h in F._workers:
                 self.reg_rev[w] = rev
             if h.transport.closed:
@@ -174,26 +176,43 @@ class World:
             self.model_ops.append(['status', w, self.revn(rev)])
         elif kind == 'org':
             env.organize(op[1], op[2], op[3])
+            for t in op[1]:
+                self.event_rid[t] = op[2]
             self.trace.append(list(op))
             return
         elif kind == 'disp':
             env.dispatch()
             new = [[self.idx[t], self.tnum[tg], rid] for t, tg, rid, _nr in self.put_log]
-            self.model_ops.append(['disp', new])
-            # message fields
-            for tag, tg, rid, node_rid in self.put_log:
+            # message fields: run id 0 for regressions, else the id the triggering event carried,
+            # else ONE fresh id per job and tick, strictly larger than every id used before
+            per_job = {}
+            for tag, tg, rid, _node_rid in self.put_log:
+                per_job.setdefault(tag, set()).add(rid)
+            tick_fresh = []
+            for tag, rids in per_job.items():
                 a = self.algs[self.idx[tag]]
+                ev = self.event_rid.get(tag)
                 if a['kind'] == 'regress':
-                    if rid != 0:
-                        self.hit('message-fields', f'regression {tag}[{tg}] queued with run id {rid} (expected 0)')
-                elif node_rid is not None:
-                    if rid != node_rid:
-                        self.hit('message-fields', f'{tag}[{tg}] queued with run id {rid}, its event carried {node_rid}')
+                    if rids != {0}:
+                        self.hit('message-fields', f'regression {tag} queued with run ids {sorted(rids)} (expected 0)')
+                elif ev is not None:
+                    if rids != {ev}:
+                        self.hit('message-fields', f'{tag} queued with run ids {sorted(rids)}, its event carried {ev}')
                 else:
-                    if self.fresh and rid < self.fresh[-1]:
-                        self.hit('message-fields', f'{tag}[{tg}] drew run id {rid}, not larger than earlier fresh ids {self.fresh[-3:]}')
-                    if rid not in self.fresh:
-                        self.fresh.append(rid)
+                    if len(rids) != 1:
+                        self.hit('message-fields', f'{tag} drew several run ids in one tick: {sorted(rids)}')
+                    rid = min(rids)
+                    if self.fresh and rid <= max(self.fresh):
+                        self.hit('message-fields',
+                                 f'the event behind {tag} carried no run id but run id {rid} is not a fresh '
+                                 f'draw (ids drawn so far: {self.fresh[-4:]})')
+                    if rid in tick_fresh:
+                        self.hit('message-fields', f'two jobs drew the same fresh run id {rid} in one tick')
+                    tick_fresh.append(rid)
+            self.fresh.extend(tick_fresh)
+            for _tag, rids in per_job.items():
+                self.seen_rids |= {r for r in rids if r}
+            self.model_ops.append(['disp', new])
         elif kind == 'notify':
             F.notify_all()
             self.model_ops.append(['notify'])
@@ -219,6 +238,9 @@ class World:
             self.handed.clear()
             self.model_ops.append(['clear'])
             self.stale = False
+        elif kind == 'archive':
+            F.ARCHIVE = bool(op[1])
+            self.model_ops.append(['archive', bool(op[1])])
         elif kind == 'active':
             if op[1] and getattr(self, 'stale', False):
                 return
@@ -245,6 +267,15 @@ class World:
                     fac = (f"{env.pkg}.{a['task']}", a['kind'])
                     if m[4] != fac:
                         self.hit('message-fields', f'{m[1]}[{m[2]}] carries factory {m[4]}, expected {fac}')
+        if kind == 'disp' and active_before and not env.fsm.active:
+            # this tick itself turned the pipeline inactive (archive): idle workers must be told to leave
+            told = {w for w, m in new_written if m[0] == 'abort'}
+            for w in workers_before:
+                if w not in told and w not in self.holding:
+                    self.hit('not-told-to-leave',
+                             f'dispatch made the pipeline inactive but idle connection {w} was not told to leave')
+            if F._workers:
+                self.hit('not-told-to-leave', 'idle workers remain registered after the pipeline became inactive')
         self.check_crew()
         self.observe(new_written)
 
@@ -255,7 +286,7 @@ def gen_ops(r, env, n):
     for _ in range(n):
         x = r.random()
         if x < 0.22:
-            ops.append(('reg', r.random() < 0.8))
+            ops.append(('reg', r.random() < 0.8, r.choice([0, 0, 1, 2])))
         elif x < 0.30:
             ops.append(('disc', r.random()))
         elif x < 0.36:
@@ -280,13 +311,36 @@ def gen_ops(r, env, n):
                 ops.append(('notify',))
                 ops.append(('clear',))
             ops.append(('active', True))
+        elif x < 0.96:
+            ops.append(('archive', r.random() < 0.7))
         else:
             ops.append(('active', r.random() < 0.7))
     return ops
 
 
+def scenarios(env):
+    """deterministic histories (run first)"""
+    tags, tg = env.tags, env.targets
+    out = []
+    # partial availability: the same node is released in two ticks for one request without run id
+    out.append([('active', True), ('reg', True, 0), ('reg', True, 1), ('org', list(tags), None, list(tg)),
+                ('disp',), ('reply', 0.0), ('disp',), ('reg', True, 2), ('reply', 0.0), ('disp',),
+                ('reply', 0.0), ('disp',), ('reply', 0.0), ('disp',)])
+    # a worker registered with incarnation 0 drops its connection while idle, then a task arrives
+    out.append([('active', True), ('reg', True, 0), ('disc', 0.0), ('org', [tags[0]], None, list(tg)), ('disp',),
+                ('reg', True, 0), ('disp',)])
+    # the tick that fires the archive: new data armed, nothing queued or busy, workers waiting
+    out.append([('active', True), ('reg', True, 1), ('reg', True, 0), ('archive', True), ('disp',), ('disp',),
+                ('active', True), ('archive', False), ('reg', True, 1), ('disp',)])
+    # reload: stale workers must not get work after the revision changed
+    out.append([('active', True), ('reg', True, 1), ('active', False), ('setrev', 'rev1'), ('notify',), ('clear',),
+                ('active', True), ('reg', True, 1), ('reg', False, 1), ('org', [tags[0]], 4, list(tg)), ('disp',)])
+    return out
+
+
 def run_history(env, res, algs, ops, lines, pending):
     env.fresh()
+    env.fsm.archive_stops = True
     env.dawgie.context.git_rev = 'rev0'
     wld = World(env, res, algs)
     for op in ops:
@@ -316,7 +370,7 @@ def compare(res, env, wld, out):
         return [env.tags[int(x[0])], tname[int(x[1])], int(x[2])]
 
     for k, (mo, io) in enumerate(zip(m, wld.impl_obs)):
-        workers, cluster, busy, log = mo
+        workers, cluster, busy, log, mactive = mo
         mw = [int(w) for w in workers]
         mc = [msg(x) for x in cluster]
         mb = [f'{env.tags[int(j)]}[{tname[int(t)]}]' for j, t in busy]
@@ -328,7 +382,9 @@ def compare(res, env, wld, out):
                 ml.append((int(w), (x,)))
         il = [(w, mm[:4] if mm[0] == 'task' else mm) for w, mm in io['written']]
         mism = None
-        if mw != io['workers']:
+        if (mactive == 'T') != bool(io['active']):
+            mism = ('pipeline active', mactive, io['active'])
+        elif mw != io['workers']:
             mism = ('idle workers', mw, io['workers'])
         elif mc != io['cluster']:
             mism = ('queued messages', mc, io['cluster'])
@@ -344,6 +400,10 @@ def compare(res, env, wld, out):
 
 
 def engine(r):
+    from . import sched_run
+    if r.random() < 0.5:
+        name = r.choice(['chain3', 'two-roots', 'short-long-a', 'fork-analysis', 'regress-leaf'])
+        return [dict(a) for a in sched_run.SHAPES[name]]
     n = r.choice([1, 2, 3])
     algs = []
     for i in range(n):
@@ -378,6 +438,8 @@ def run(ctx, res):
         finally:
             sys.stdout = old
         envs.append(env)
+        for ops in scenarios(env):
+            run_history(env, res, algs, ops, lines, pending)
         for _h in range(10 if thorough else 5):
             run_history(env, res, algs, gen_ops(r, env, r.choice([10, 20, 40])), lines, pending)
     if ctx['lean']:
@@ -398,6 +460,7 @@ def replay(rep, res):
     env = E.Env(algs, inp['targets'])
     try:
         env.fresh()
+        env.fsm.archive_stops = True
         env.dawgie.context.git_rev = 'rev0'
         wld = World(env, res, algs)
         for op in inp['ops']:
